@@ -300,6 +300,38 @@ func (r *c03Run) step(ev string) bool {
 				}
 			}
 		}
+	case "finish-genuine-then-pipelined-start-by-X":
+		// L's genuine finish, and in the same TCP segment a verify START with a key of somebody on the path. L's exchange
+		// succeeds; the session that follows belongs to L's exchange: frames the injector seals under the keys of ITS
+		// start (it can compute them from the plaintext answer) are not served.
+		if pending == nil || cn.name != "L" || cn.verified {
+			cn.pending = pending // not enabled: nothing is sent
+			return true
+		}
+		isFinish = true
+		expectVerify = !r.lUnpaired
+		z := refctl.NewVerify(refctl.Seed32(fmt.Sprintf("injected:%d", r.seq)))
+		raw := refctl.BuildRequest("POST", "/pair-verify", refctl.CTPairing, pending.M3(idL))
+		raw = append(raw, refctl.BuildRequest("POST", "/pair-verify", refctl.CTPairing, refctl.VerifyM1(z.EphPub))...)
+		cn.lastM3 = pending.RawM3
+		if err = cn.k.SendRaw(raw); err == nil {
+			m, err = cn.k.ReadMsg()
+		}
+		if err != nil {
+			cn.dead = true
+		} else {
+			cn.dead = true // (whatever follows, this connection is spent on the probe)
+			if m2, e := cn.k.ReadMsg(); e == nil && z.ParseM2(m2.Body, nil) == nil {
+				a2c, c2a := refctl.SessionKeys(z.Shared)
+				if pr := cn.k.ProbeEncrypted(a2c, c2a, refctl.BuildRequest("GET", "/accessories", "", nil)); pr.Decrypted != nil {
+					r.fail("served-under-injected-exchange-keys", fmt.Sprintf("after L's genuine finish, a request sealed under the keys of a verify start that somebody injected behind it was answered (status %d, %d bytes) under those keys", pr.Decrypted.Status, len(pr.Decrypted.Body)))
+					return false
+				}
+				r.c.Class(op + "→injected keys not served")
+			} else {
+				r.c.Class(op + "→injected start not answered")
+			}
+		}
 	case "finish-genuine-plus-cut-off-item", "finish-genuine-plus-lone-tag":
 		// L's genuine payload followed by bytes that do not form an item: a malformed message
 		isFinish = true
@@ -690,7 +722,7 @@ func c03Run1(c *fw.Ctx) {
 		n = 16 // quick: the first 16 symbols (simplest first) …
 	}
 	// … plus the two degenerate-entity symbols
-	alpha := append(append([]string{}, c03Alphabet[:n]...), "X:finish-naming-keyless-entity", "X:finish-naming-shortkey-entity", "L:finish-genuine-begin", "L:finish-genuine-end", "L:finish-signed-by-L-naming-case-variant", "X:finish-reflecting-accessory-signature", "X:start-with-accessory-key", "X:finish-echoing-start-response", "L:finish-genuine-plus-cut-off-item", "L:finish-genuine-then-pipelined-failed-verify", "L:finish-len15", "X:finish-signed-by-X-naming-L-with-own-key-item", "X:finish-with-error-item", "X:finish-naming-path-into-neighbour-store")
+	alpha := append(append([]string{}, c03Alphabet[:n]...), "X:finish-naming-keyless-entity", "X:finish-naming-shortkey-entity", "L:finish-genuine-begin", "L:finish-genuine-end", "L:finish-signed-by-L-naming-case-variant", "X:finish-reflecting-accessory-signature", "X:start-with-accessory-key", "X:finish-echoing-start-response", "L:finish-genuine-plus-cut-off-item", "L:finish-genuine-then-pipelined-failed-verify", "L:finish-len15", "X:finish-signed-by-X-naming-L-with-own-key-item", "X:finish-with-error-item", "X:finish-naming-path-into-neighbour-store", "L:finish-genuine-then-pipelined-start-by-X")
 	if c.Thorough() {
 		// thorough: the quick alphabet to depth 4, and the full alphabet to depth 3
 		full := c03Alphabet
@@ -747,7 +779,7 @@ func init() {
 	fw.Register(&fw.Check{
 		ID:    "C03",
 		Level: "model_checking",
-		Rule:  "every history of length ≤3 (quick) / ≤4 (thorough) over 29 symbols, in thorough also every history of length ≤3 over all 38 symbols, of the pair-verify alphabet on an adversary connection X and a legitimate connection L (start valid / 31 / 33 / 0-byte key / all-zero point; finish genuine, signed by X naming L, unknown name, naming the accessory, sealed under zero / wrong key, 0 and 15 byte payloads, tag flipped, L's captured finish replayed, L's signature over reordered or stale material, naming a stored entity that has no key / a 5-byte key, signed by L's own key but naming the case-swapped spelling / a prefix of its name, the accessory's own identifier and signature reflected, a start with the accessory's own ephemeral key followed by a finish that echoes the sealed part of the start response; unknown state; unknown method; reopen; L's start replayed by X; L's genuine finish split with Expect: 100-continue so that its handler overlaps with later events; L's genuine payload followed by bytes that do not form a TLV8 item; L's genuine finish with a complete failing pair-verify appended in the same TCP segment — L is verified all the same; a finish shorter than an authentication tag on L's own connection, after which a genuine finish without a new start is refused; a finish naming L, signed by X and carrying X's public key as an extra item; a finish that carries only an error item). From the further non-initial state 'X started and was refused once (unknown name)' every history of length 2 (thorough 3) over all symbols. Directly after an accepted start, also every damaged form of L's genuine finish: the signed payload cut to each of its 0…103-byte prefixes, six tails that do not form an item appended inside the sealed payload or after the request body, the body cut by 1, 2, 15, 16, 17 bytes — each must be answered with an error and leave the connection unverified. All against the real transport over TCP; each node is replayed on a fresh system; after every event the response is compared with the reference model (verified ⇔ genuine finish by L directly after an accepted start, computed by the independent controller), and at the end of every history each connection is probed destructively: an unverified one must answer plaintext, refuse protected reads and not serve ciphertext under its own exchange keys; a verified one must serve encrypted requests. The same alphabet (all 38 symbols) is also explored to depth 2 (thorough 3) from two non-initial states: L already verified on its connection, and L verified once and then removed by an administrator through /pairings (its genuine finish must then be refused). Plus interleavings of the real pair-verify / pair-setup handlers of two connections under a cooperative scheduler (scheduling points = every log statement of the library, every mutex Lock in hap and crypto, the arrival of each request; preemption bound 2 quick / 3 thorough; and once more with a scheduling point before every statement of hc's packages and one preemption): a genuine and a forged pair-verify naming the same controller, a pair-verify next to another connection's key exchange — exactly the genuine one ends verified. states = tree nodes, distinct_nontrivial = distinct (event → response class) pairs The adversary is paired with ANOTHER accessory whose store lies next to this one's; it presents a name that is a relative path to its entity file there (names are not paths: refused).",
+		Rule:  "every history of length ≤3 (quick) / ≤4 (thorough) over 29 symbols, in thorough also every history of length ≤3 over all 38 symbols, of the pair-verify alphabet on an adversary connection X and a legitimate connection L (start valid / 31 / 33 / 0-byte key / all-zero point; finish genuine, signed by X naming L, unknown name, naming the accessory, sealed under zero / wrong key, 0 and 15 byte payloads, tag flipped, L's captured finish replayed, L's signature over reordered or stale material, naming a stored entity that has no key / a 5-byte key, signed by L's own key but naming the case-swapped spelling / a prefix of its name, the accessory's own identifier and signature reflected, a start with the accessory's own ephemeral key followed by a finish that echoes the sealed part of the start response; unknown state; unknown method; reopen; L's start replayed by X; L's genuine finish split with Expect: 100-continue so that its handler overlaps with later events; L's genuine payload followed by bytes that do not form a TLV8 item; L's genuine finish with a complete failing pair-verify appended in the same TCP segment — L is verified all the same; a finish shorter than an authentication tag on L's own connection, after which a genuine finish without a new start is refused; a finish naming L, signed by X and carrying X's public key as an extra item; a finish that carries only an error item). From the further non-initial state 'X started and was refused once (unknown name)' every history of length 2 (thorough 3) over all symbols. Directly after an accepted start, also every damaged form of L's genuine finish: the signed payload cut to each of its 0…103-byte prefixes, six tails that do not form an item appended inside the sealed payload or after the request body, the body cut by 1, 2, 15, 16, 17 bytes — each must be answered with an error and leave the connection unverified. All against the real transport over TCP; each node is replayed on a fresh system; after every event the response is compared with the reference model (verified ⇔ genuine finish by L directly after an accepted start, computed by the independent controller), and at the end of every history each connection is probed destructively: an unverified one must answer plaintext, refuse protected reads and not serve ciphertext under its own exchange keys; a verified one must serve encrypted requests. The same alphabet (all 38 symbols) is also explored to depth 2 (thorough 3) from two non-initial states: L already verified on its connection, and L verified once and then removed by an administrator through /pairings (its genuine finish must then be refused). Plus interleavings of the real pair-verify / pair-setup handlers of two connections under a cooperative scheduler (scheduling points = every log statement of the library, every mutex Lock in hap and crypto, the arrival of each request; preemption bound 2 quick / 3 thorough; and once more with a scheduling point before every statement of hc's packages and one preemption): a genuine and a forged pair-verify naming the same controller, a pair-verify next to another connection's key exchange — exactly the genuine one ends verified. states = tree nodes, distinct_nontrivial = distinct (event → response class) pairs The adversary is paired with ANOTHER accessory whose store lies next to this one's; it presents a name that is a relative path to its entity file there (names are not paths: refused). L's genuine finish with a verify START of somebody on the path in the same segment: what the injector seals under the keys of its start is not served.",
 		Run:   c03Run1,
 		Replay: func(c *fw.Ctx, raw json.RawMessage) {
 			var pc pschedCase
